@@ -317,9 +317,65 @@ def running_definitions(P, R, rid):
             'running|application', u.loc(), 'ApplicationStatus.has_running_processes is %s: an application whose '
             'processes are all STARTING or BACKOFF is considered stopped and is left out of the stop plan' %
             [ast.unparse(v) for v in rs])
+    ro = P.unit('ProcessStatus.running_on')
+    from ..paths import expand_self
+    rv = [expand_self(ro, v) for v, f, n in returns(ro) if v is not None]
+    ok = rv == [expand_self(ro, 'self.running() and identifier in self.running_identifiers')]
+    R.check(rid, ok, 'running_on(i) is "the process is running and i is one of the instances where it runs"',
+            'running|running_on', ro.loc(), 'ProcessStatus.running_on returns %s: the per-instance payload can say '
+            'STOPPING/RUNNING while the instance is no longer listed (or the reverse), so a copy is not invalidated / not '
+            'stopped' % rv)
     pr = P.unit('ProcessStatus.running')
     rv = [ctext(v) for v, f, n in returns(pr) if v is not None]
     st = supstates.load()
     ok = rv == ['self.state in RUNNING_STATES'] and sorted(st['RUNNING_STATES']) == ['BACKOFF', 'RUNNING', 'STARTING']
     R.check(rid, ok, 'ProcessStatus.running() is state in RUNNING_STATES (STARTING, BACKOFF, RUNNING)', 'running|process',
             pr.loc(), 'ProcessStatus.running returns %s' % rv)
+
+
+def transport_failure_posted(P, R, rid):
+    """an XML-RPC transport failure towards an ACTIVE remote peer (CHECKING, CHECKED, RUNNING, FAILED) posts
+    INSTANCE_FAILURE: a peer lost during its handshake leaves CHECKING instead of staying there for ever."""
+    from ..paths import factmap, call_text
+    u = P.unit('SupervisorProxyThread.handle_exception')
+    fm = factmap(u)
+    push = [c for c in own_nodes(u.node) if isinstance(c, ast.Call) and call_text(c).endswith('.push_notification')]
+    ok = len(push) == 1 and {tuple(f) for f in fm.at(push[0])} == {
+        ('self.local_identifier == self.status.identifier', False), ('self.status.has_active_state()', True)} and \
+        any(ast.unparse(x) == 'NotificationHeaders.INSTANCE_FAILURE.value' for x in own_nodes(u.node))
+    R.check(rid, ok, 'a failed proxy of an active remote peer posts INSTANCE_FAILURE', 'bus|handle_exception', u.loc(),
+            'handle_exception does not post INSTANCE_FAILURE under exactly (remote, active state): %s' %
+            [sorted(tuple(f) for f in fm.at(c)) for c in push])
+
+
+def handshake_order(P, R, rid):
+    """the handshake request is queued AFTER the instance entered CHECKING: the entry stamps checking_time, and the
+    answers of a request stamped before that date are refused as obsolete (is_checking(timestamp))."""
+    from ..paths import call_text
+
+    def blocks(stmts):
+        yield stmts
+        for st in stmts:
+            for f in ('body', 'orelse', 'finalbody'):
+                v = getattr(st, f, None)
+                if isinstance(v, list) and v and isinstance(v[0], ast.stmt) and not isinstance(st, ast.FunctionDef):
+                    yield from blocks(v)
+            for h in getattr(st, 'handlers', []) or []:
+                yield from blocks(h.body)
+    n = 0
+    for q in ('Context.on_local_tick_event', 'Context.on_tick_event'):
+        u = P.unit(q)
+        for blk in blocks(u.node.body):
+            entered = False
+            for st in blk:
+                if isinstance(st, ast.Assign) and ast.unparse(st.targets[0]).endswith('.state') and \
+                        ast.unparse(st.value) == 'SupvisorsInstanceStates.CHECKING':
+                    entered = True
+                if isinstance(st, ast.Expr) and isinstance(st.value, ast.Call) and \
+                        call_text(st.value).endswith('.send_check_instance'):
+                    n += 1
+                    R.check(rid, entered, '%s: CHECKING is entered before the handshake is requested' % q,
+                            'handshake-order|%s' % q, u.loc(st), '%s queues the handshake request before setting the '
+                            'instance CHECKING: a request stamped before checking_time gets its authorization refused as '
+                            'obsolete and the instance stays CHECKING for ever' % q)
+    R.require(n >= 2, 'only %d send_check_instance requests found in the tick handlers of Context' % n)
